@@ -219,7 +219,7 @@ CLAIMED["C15"] = dict(
          "the latest sources and must agree (value, type, error class and first line); verif.fx.loaded at the top of "
          "every module body counts body runs (more than one between two source changes is a violation); a reported "
          "cycle must name only modules that lie on a cycle of the latest graph; CPU-budget and blocked-forever "
-         "monitors catch hangs. Plus every history of length <= 4 (quick) / 6 (thorough) over an 11-letter alphabet on "
+         "monitors catch hangs. Plus every history of length <= 4 (quick) / 5 (thorough) over an 11-letter alphabet on "
          "a fixed 3-module graph.",
     design_ref="DESIGN.md §4 C15",
     note="When both VMs fail but with different first errors, the long-lived VM's error is accepted only if it can be "
